@@ -57,8 +57,8 @@ def body_hist(cube, **kw):
         return 'pre-state: ' + r
     for s in range(k):
         o = cube['o0'] if (s == 0 and 'o0' in cube) else idx(kw['o%d' % s], len(OPS))
-        ni = idx(kw['n%d' % s], NN)
-        ai = idx(kw['a%d' % s], NA)
+        ni = idx(kw['n%d' % s], NN) if o < 4 else 0      # arguments are read lazily
+        ai = idx(kw['a%d' % s], NA) if o < 5 else 0
         a, n = atts[ai], nodes[ni]
         if o == 0:
             a.compromise(n); shadow[ai][ni] = True
@@ -89,6 +89,61 @@ def body_hist(cube, **kw):
     return ''
 
 
+EPS = [[], [(0, ['a'])], [(0, ['a', 'nosuchstep']), (1, ['c'])], [(1, ['b', 'c']), (0, ['d'])], [(0, ['nosuchstep'])]]
+
+
+def body_attach(cube, **kw):
+    """attach_attackers: one graph attacker per model attacker; entry points = reached = existing nodes named."""
+    from maltoolbox.attackgraph import AttackGraph
+    from maltoolbox.model import AttackerAttachment
+    from xh import langs, mb
+    from xh.h_c09 import L_MINI
+    from xh.rt import reclimit
+    e0, e1 = idx(kw['e0'], len(EPS)), idx(kw['e1'], len(EPS) + 1)
+    link, twice = bool(kw['l']), bool(kw['tw'])
+    with notrace(), reclimit():
+        lg, lcf = langs.build_lang(L_MINI())
+        m, A = mb.build_model(lcf, ['N', 'N'], names=['x', 'y:1'])
+        if link:
+            mb.add_link(m, lcf, 'PQ', 'p', [A[0]], 'q', [A[1]])
+        want = []
+        for k, e in enumerate([e0, e1]):
+            if e >= len(EPS):
+                continue
+            t = AttackerAttachment(name='att%d' % k)
+            m.add_attacker(t)
+            for (ai, steps) in EPS[e]:
+                for st in steps:
+                    t.add_entry_point(A[ai], st)
+            want.append(('att%d' % k, sorted('%s:%s' % (A[ai].name, st) for (ai, steps) in EPS[e] for st in steps if st != 'nosuchstep')))
+        g = AttackGraph(lg, m)
+        g.attach_attackers()
+        if twice:
+            g.regenerate_graph()
+            g.attach_attackers()
+        if len(g.attackers) != len(want):
+            return 'attach_attackers created %d attackers for %d model attackers' % (len(g.attackers), len(want))
+        ids = []
+        for ga, (nm, eps) in zip(g.attackers, want):
+            if ga.name != nm:
+                return 'graph attacker named %r, model attacker %r' % (ga.name, nm)
+            if ga.id in ids or g.get_attacker_by_id(ga.id) is not ga:
+                return 'graph attacker ids not unique / lookup broken'
+            ids.append(ga.id)
+            for lst, what in ((ga.entry_points, 'entry points'), (ga.reached_attack_steps, 'reached steps')):
+                got = sorted(n.full_name for n in lst)
+                if got != eps:
+                    return '%s of %s are %s, the model names the existing nodes %s' % (what, nm, got, eps)
+                for n in lst:
+                    if g.get_node_by_full_name(n.full_name) is not n:
+                        return '%s of %s contain a node that is not in the graph' % (what, nm)
+            for n in g.nodes:
+                inlist = any(x is n for x in ga.reached_attack_steps)
+                if inlist != any(x is ga for x in n.compromised_by):
+                    return 'attacker %s and node %s disagree after attach_attackers' % (nm, n.full_name)
+    return ''
+
+
 def queries(tier):
     bits = [B('r%d%d' % (a, n)) for a in range(NA) for n in range(NN)]
     qs = []
@@ -107,8 +162,14 @@ def queries(tier):
         bound='3 nodes x 2 attackers; every pre-state relation (6 bits, built through the API) '
               'followed by %d operation(s) from %s with every node/attacker argument' % (k, OPS),
         requires=['Attacker.compromise', 'Attacker.undo_compromise', 'AttackGraphNode.compromise',
-                  'AttackGraphNode.undo_compromise', 'AttackGraph.remove_attacker', 'AttackGraph.add_attacker'],
+                  'AttackGraphNode.undo_compromise', 'AttackGraph.remove_attacker', 'AttackGraph.add_attacker',
+                  'AttackGraph.attach_attackers'],
     ))
+    ps = [I('e0', 0, len(EPS) - 1), I('e1', 0, len(EPS)), B('l'), B('tw')]
+    qs.append(Query(name='attach', body=body_attach, params=ps, timeout=400,
+                    witnesses=[({}, {'e0': 2, 'e1': 3, 'l': True, 'tw': True})],
+                    bound='graph generated from a 2-asset L_MINI model with one or two model attackers whose entry points range over %s '
+                          '(incl. a step that does not exist, several steps per asset, several assets); attach once or after a regeneration' % EPS))
     return qs
 
 
